@@ -68,17 +68,6 @@ func classifyJustRound(v ssa.Value) string {
 	return "unknown:" + c
 }
 
-// storesTo lists the values stored directly into the alloc.
-func storesTo(a *ssa.Alloc) []ssa.Value {
-	var out []ssa.Value
-	for _, r := range *a.Referrers() {
-		if st, ok := r.(*ssa.Store); ok && st.Addr == a {
-			out = append(out, st.Val)
-		}
-	}
-	return out
-}
-
 // sliceOfStored: v is alloc[:] — returns canon of the single value stored in the alloc.
 func sliceOfStored(v ssa.Value) string {
 	if sl, ok := v.(*ssa.Slice); ok {
